@@ -183,6 +183,25 @@ func checkC03(c c03Case) *core.Failure {
 				return f
 			}
 		}
+		if v.name == "with-profile" {
+			// replacing the certificates (generate-all) must not disturb the subject either
+			res2 := core.Run(d, core.FlagAll)
+			if !res2.OK() {
+				return core.Failf("C03/rerun-failed", "generate-all rerun (with profile) failed: %s", res2.String())
+			}
+			for i := range v.w.Ents {
+				e := &v.w.Ents[i]
+				dec, err := readEntity(d, e)
+				if err != nil || dec.Cert == nil {
+					return core.Failf("C03/no-certificate", "after rerun: %v", err)
+				}
+				if f := checkSubject(dec.Cert.Subject, e.Subject); f != nil {
+					f.Sig = "C03/" + f.Sig + "/with-profile-replaced"
+					f.Msg = "replacing run: " + e.SubjectString() + ": " + f.Msg
+					return f
+				}
+			}
+		}
 		if v.name == "no-profile" {
 			// a generate-all run draws fresh serials
 			res2 := core.Run(d, core.FlagAll)
